@@ -816,3 +816,4 @@ mod tests {
         assert_eq!(apply_filters(&RootRelativePath::try_from(Path::new("src/source.cpp")).unwrap(), &filters), FilterResult::Include);
     }
 }
+#[cfg(rjrssync_verif)] pub(crate) mod verif_hooks { include!(concat!(env!("RJRSSYNC_VERIF_HARNESS"), "/hooks_doer.rs")); }
